@@ -137,7 +137,7 @@ def run(ctx):
     mc(ctx)
     q = ctx.quick
     nproc = 4 if q else 8
-    per = 12000 if q else 500000          # random lifts per recorder process
+    per = 16000 if q else 600000          # random lifts per recorder process
     jobs = [("c05", ["--mode", "corpus", "--corpus", CORPUS], "corpus.ndjson", {"timeout": 900})]
     for i in range(nproc):
         jobs.append(("c05", ["--mode", "random", "--corpus", CORPUS, "--n", per, "--stream", i,
